@@ -93,7 +93,7 @@ def op_from_json(j):
         h['coords'] = [bytes.fromhex(c) for c in h['coords']]
         return ('new', h)
     if k == 'add':
-        return ('add', j[1], j[2], j[3], bytes.fromhex(j[4]), bytes.fromhex(j[5]))
+        return ('add', j[1], j[2], j[3], bytes.fromhex(j[4]), bytes.fromhex(j[5])) + tuple(j[6:7])
     return tuple(j)
 
 
@@ -123,6 +123,31 @@ def hkey(h):
 
 
 # ----------------------------------------------------------------------------- the real code driver
+
+LAYOUTS = ['C', 'F', 'T', 'S', 'N', 'R', 'FR']
+
+
+def with_layout(arr, layout):
+    """The same LOGICAL array (shape, dtype, C-order element sequence) in another memory layout:
+    C = C-contiguous, F = Fortran-ordered copy, T = transposed view of a C-contiguous base, S = strided
+    (every second element of the last axis of a larger buffer), N = negative stride along the last axis,
+    R = read-only (suffix).  All constructions are same-dtype copies/views (raw bytes, no arithmetic)."""
+    a = arr
+    if 'F' in layout:
+        a = np.asfortranarray(a)
+    elif 'T' in layout:
+        a = np.ascontiguousarray(a.T).T
+    elif 'S' in layout and a.ndim >= 1:
+        big = np.zeros(a.shape[:-1] + (2 * a.shape[-1] + 1,), dtype=a.dtype)
+        big[..., 1::2] = a
+        a = big[..., 1::2]
+    elif 'N' in layout and a.ndim >= 1:
+        a = a[..., ::-1].copy()[..., ::-1]
+    if 'R' in layout:
+        a = a.view()
+        a.setflags(write=False)
+    return a
+
 
 class Real:
     """Executes ops with the real FieldsIO classes on one real file; returns results in the normal form
@@ -195,6 +220,9 @@ class Real:
                     raise SystemError('harness: payload size')
                 if h['kind'] == 'R' and n == nitems(h) and n > 0:
                     arr = arr.reshape((h['nVar'],) + tuple(len(c) // 8 for c in h['coords']))
+                arr = with_layout(arr, op[6] if len(op) > 6 else 'C')
+                if np.ascontiguousarray(arr).tobytes() != pb:
+                    raise SystemError('harness: layout %r changed the logical element sequence' % (op[6:],))
                 try:
                     o.addField(struct.unpack('<d', tb)[0], arr)
                 except AssertionError:
@@ -493,7 +521,7 @@ def gen_trace(rng, mode, path, nops, fails):
                 n = max(0, n + rng.choice([-1, 1, 2]))
             if not (0 <= n * ITEMSIZE[dt] <= 2048) or (raw is not None and len(raw) > 12000):
                 continue
-            r = emit(('add', k, dt, n, rand_time(rng), rand_payload(rng, n * ITEMSIZE[dt])))
+            r = emit(('add', k, dt, n, rand_time(rng), rand_payload(rng, n * ITEMSIZE[dt]), rng.choice(LAYOUTS)))
             if r[0] == 'POk' and (raw is None or st['file_h'] is None or len(raw) < hsize(st['file_h'])):
                 st['sane'] = False
         elif u < 0.52:
@@ -549,6 +577,35 @@ def gen_trace(rng, mode, path, nops, fails):
             emit(('read', k, i))
         emit(('read', k, -1))
     return ops, ress
+
+
+def layout_traces(rng, path):
+    """Deterministic sweep: every memory layout of the field handed to addField x grids on which Fortran order
+    differs from C order (>= 2 axes longer than 1, counting nVar) x 3 dtypes; each record is read back."""
+    out = []
+    lin = lambda n: np.linspace(0, 1, n, endpoint=False).tobytes()
+    shapes = [(2, [3]), (1, [2, 3]), (3, [2, 2]), (2, [2, 3, 2]), (1, [1, 3, 2]), (2, [])]
+    for si, (nVar, gs) in enumerate(shapes):
+        for dt in (0, 3, 4) if si % 2 == 0 else (1, 2, 5):
+            h = {'kind': 'R' if gs else 'S', 'dt': dt, 'nVar': nVar, 'coords': [lin(n) for n in gs]}
+            real, spec, ops, ress, fails = Real(path), Spec(), [], [], []
+
+            def emit(op):
+                pre = {'raw': real.raw(), 'inited': bool(real.handles[op[1]][0].initialized)} if op[0] == 'init' else None
+                res = real.do(op)
+                ops.append(op)
+                ress.append(res)
+                spec.check(op, res, real, lambda kind, msg, extra: fails.append((kind, msg, len(ops) - 1, extra)), pre=pre)
+            emit(('new', h))
+            emit(('init', 0, False))
+            for lay in LAYOUTS:
+                emit(('add', 0, dt, nitems(h), rand_time(rng), rand_payload(rng, fsize(h)), lay))
+            emit(('open', si % 3))
+            emit(('nfields', 1))
+            for i in range(len(LAYOUTS)):
+                emit(('read', 1, i))
+            out.append((ops, ress, fails))
+    return out
 
 
 def coq_file(mode, traces, npre):
@@ -728,7 +785,8 @@ def crash_scan(ck, rng, mode, scratch, thorough, fails_out):
         rS = 8 + fS
         nrec = [0, 2][ci % 2] if not thorough else rng.choice([0, 1, 3])
         recs = [(rand_time(rng), rand_payload(rng, fS)) for _ in range(nrec + 2)]
-        pre = [('new', h), ('init', 0, False)] + [('add', 0, h['dt'], nitems(h), t, p) for t, p in recs[:nrec + 1]]
+        pre = [('new', h), ('init', 0, False)] + [('add', 0, h['dt'], nitems(h), t, p, LAYOUTS[(ci + j) % len(LAYOUTS)])
+                                                  for j, (t, p) in enumerate(recs[:nrec + 1])]
         base = hS + nrec * rS
         for k in range(rS + 1):
             fails = []
@@ -752,7 +810,7 @@ def crash_scan(ck, rng, mode, scratch, thorough, fails_out):
                 emit(('read', 1, idx))
             emit(('time', 1, -1))
             t, p = recs[nrec + 1]
-            emit(('add', 1, h['dt'], nitems(h), t, p))
+            emit(('add', 1, h['dt'], nitems(h), t, p, LAYOUTS[(ci + k) % len(LAYOUTS)]))
             emit(('nfields', 1))
             emit(('read', 1, -1))
             emit(('read', 0, nrec))
@@ -1135,13 +1193,19 @@ def run(ck):
         ck.case(key=('trace', str(hkey(ops[0][1])), tuple(o[0] for o in ops)), nontrivial=nadd > 0,
                 sample={'kind': 'trace', 'header': op_json(ops[0])[1], 'ops': [o[0] for o in ops][:20]} if ti < 2 else None)
     ck.log('random traces executed on the real code')
+    for ops, ress, fails in layout_traces(rng, os.path.join(scratch, 'layout.pysdc')):
+        all_ops.append(ops)
+        all_ress.append(ress)
+        fails_by_trace.append(fails)
+        ck.case(key=('layouts', str(hkey(ops[0][1]))), nontrivial=True)
+    ck.cov['field_memory_layouts'] = LAYOUTS
     model = run_coq_traces(ck, mode, [coq_ops(o) for o in all_ops], 'Traces')
     ck.log('model evaluated')
     if model is None:
         return
     nbad, mism = compare(ck, 'random op sequence', mode, all_ops, all_ress, model, fails_by_trace, 'trace')
     ck.obligation('FieldsIO model (%s) = implementation on %d op sequences (%d ops), bytes of the file after every write'
-                  % (mode, ntr, sum(len(o) for o in all_ops)), nbad == 0)
+                  % (mode, len(all_ops), sum(len(o) for o in all_ops)), nbad == 0)
     report_oracle(ck, all_ops, fails_by_trace, mode, 'trace', mism)
 
     # ------------------------------------------------------------ 2. every crash point of an append
